@@ -573,6 +573,9 @@ impl Since {
     }
 
     /// Extracts a `SinceMetric` from an unsigned 64-bit integer since
+    ///
+    /// The timestamp metric is converted to milliseconds; a value whose milliseconds do not fit
+    /// into 64 bits saturates (see `timestamp_overflows`).
     pub fn extract_metric(self) -> Option<SinceMetric> {
         let value = self.0 & VALUE_MASK;
         match self.0 & METRIC_TYPE_FLAG_MASK {
@@ -583,9 +586,17 @@ impl Since {
                 EpochNumberWithFraction::from_full_value_unchecked(value),
             )),
             //0b0100_0000
-            0x4000_0000_0000_0000 => Some(SinceMetric::Timestamp(value * 1000)),
+            0x4000_0000_0000_0000 => Some(SinceMetric::Timestamp(value.saturating_mul(1000))),
             _ => None,
         }
+    }
+
+    /// Whether the metric is a timestamp whose value in milliseconds does not fit into 64 bits.
+    ///
+    /// No block time can ever reach such a value, the lock never matures.
+    pub fn timestamp_overflows(self) -> bool {
+        self.0 & METRIC_TYPE_FLAG_MASK == 0x4000_0000_0000_0000
+            && (self.0 & VALUE_MASK).checked_mul(1000).is_none()
     }
 }
 
@@ -649,6 +660,9 @@ impl<DL: HeaderFieldsProvider> SinceVerifier<DL> {
                     }
                 }
                 Some(SinceMetric::Timestamp(timestamp)) => {
+                    if since.timestamp_overflows() {
+                        return Err((TransactionError::Immature { index }).into());
+                    }
                     let parent_hash = self.tx_env.parent_hash();
                     let tip_timestamp = self.block_median_time(&parent_hash);
                     if tip_timestamp < timestamp {
@@ -677,9 +691,9 @@ impl<DL: HeaderFieldsProvider> SinceVerifier<DL> {
             match since.extract_metric() {
                 Some(SinceMetric::BlockNumber(block_number)) => {
                     let proposal_window = self.consensus.tx_proposal_window();
-                    if self.tx_env.block_number(proposal_window) < info.block_number + block_number
-                    {
-                        return Err((TransactionError::Immature { index }).into());
+                    match info.block_number.checked_add(block_number) {
+                        Some(number) if self.tx_env.block_number(proposal_window) >= number => {}
+                        _ => return Err((TransactionError::Immature { index }).into()),
                     }
                 }
                 Some(SinceMetric::EpochNumberWithFraction(epoch_number_with_fraction)) => {
@@ -694,6 +708,9 @@ impl<DL: HeaderFieldsProvider> SinceVerifier<DL> {
                     }
                 }
                 Some(SinceMetric::Timestamp(timestamp)) => {
+                    if since.timestamp_overflows() {
+                        return Err((TransactionError::Immature { index }).into());
+                    }
                     // pass_median_time(current_block) starts with tip block, which is the
                     // parent of current block.
                     // pass_median_time(input_cell's block) starts with cell_block_number - 1,
@@ -714,8 +731,9 @@ impl<DL: HeaderFieldsProvider> SinceVerifier<DL> {
                         self.parent_median_time(&info.block_hash)
                     };
                     let current_median_time = self.block_median_time(&parent_hash);
-                    if current_median_time < base_timestamp + timestamp {
-                        return Err((TransactionError::Immature { index }).into());
+                    match base_timestamp.checked_add(timestamp) {
+                        Some(deadline) if current_median_time >= deadline => {}
+                        _ => return Err((TransactionError::Immature { index }).into()),
                     }
                 }
                 None => {
